@@ -8,6 +8,7 @@
 extern "C" {
 #include <soundswallower/acmod.h>
 #include <soundswallower/alignment.h>
+#include <soundswallower/bin_mdef.h>
 #include <soundswallower/configuration.h>
 #include <soundswallower/decoder.h>
 #include <soundswallower/dict.h>
